@@ -19,3 +19,42 @@ Inductive exitm (A : Type) : Type :=
 | FailedM (msg : bytes).   (* a no-return call with this first argument was reached *)
 Arguments DoneM {A} a.
 Arguments FailedM {A} msg.
+
+(* a call, as a whole statement, of a function that may end in a no-return call (table entry
+   LibFunc.MayFail: its denotation has the type res (exitm A)), followed by the rest of the
+   block: FailedM msg ends the enclosing function with that value, DoneM a goes on with a *)
+From GI Require Import Lib.GoSem.
+
+Definition bindFO {A S L R : Type} (m : res (exitm A)) (k : A -> res (outcome S L (exitm R)))
+  : res (outcome S L (exitm R)) :=
+  match m with
+  | Ok (DoneM a) => k a
+  | Ok (FailedM msg) => Ok (Return (FailedM msg))
+  | Panic => Panic
+  | OutOfFuel => OutOfFuel
+  end.
+
+(* the same at the top level of a function *)
+Definition bindFT {A R : Type} (m : res (exitm A)) (k : A -> res (exitm R)) : res (exitm R) :=
+  match m with
+  | Ok (DoneM a) => k a
+  | Ok (FailedM msg) => Ok (FailedM msg)
+  | Panic => Panic
+  | OutOfFuel => OutOfFuel
+  end.
+
+(* v, ok := m[k] on a map that is read and written (GoSemState.mapref): the newest binding of
+   k and true, or the zero value d and false for an absent key or the nil map *)
+From GI Require Import Lib.GoSemState.
+
+Fixpoint assoc_find {V : Type} (l : list (bytes * V)) (k : bytes) : option V :=
+  match l with
+  | nil => None
+  | cons (k', v) r => if bytes_eqb k' k then Some v else assoc_find r k
+  end.
+
+Definition go_mapref_lookup {V : Type} (d : V) (m : mapref V) (k : bytes) : V * bool :=
+  match m with
+  | Some l => match assoc_find l k with Some v => (v, true) | None => (d, false) end
+  | None => (d, false)
+  end.
